@@ -13,11 +13,18 @@ returned ∈ ok | panic;   hooks.natural.single scenario blocker unit site write
   hooks.steps.single  scenario blocker reach nItems nFailing nLate stateEqualsAllFailingSkipped detail [stores]
   hooks.sub.single    scenario blocker substep outcome wrote
   hooks.post.single   scenario blocker reach ok vaultStepsWrapped halfAppliedVaults borrowStepsWrapped halfAppliedBorrows itemsV itemsB topUnits [detail]
+  hooks.items.single  scenario blocker nItems k kind j returned natFail observed decomposes [detail]
+      (per-item granularity, c15_apps_test.go: fault in item k — 0 = none —; natFail = items failing by themselves; observed =
+       items visible as processed in the real result, found by comparison with the real one-item runs, `?` = no set of whole items)
+  hooks.kick.single   scenario blocker reach returned position mode due blockedBy lotMoved lockedVault auction active [detail]
+      (surplus kick-off of liquidationsV2.BeginBlocker, unwrapped; mode 0 = app not whitelisted, 1 = English off, 2 = English on)
 parents: csv of unit numbers (0 = top level) or `-`; commits: string of 0/1 per unit or `-`.
 
 DIFF = the model's prediction differs from the real blocker; MON = the property is false on the real behaviour:
 `no_panic` (a panic escaped a real Begin/EndBlocker in a reachable state), `unit_atomic` (writes of a failed step are
-visible), `remaining_run` (the steps after a failed one were not processed).
+visible), `remaining_run` (the steps after a failed one were not processed); for the unwrapped surplus kick-off of the second generation
+`kickoff_atomic` (the lot left the collector although no auction was started) and `kickoff_remaining` (a due entry behind a failing
+one was not looked at) — both fire on the unchanged tree: finding D-C15-1 of notes/C15.md.
 -/
 -- DRIVER: prefix=hooks ns=Comdex.Drv.Hooks
 namespace Comdex.Drv.Hooks
@@ -133,6 +140,47 @@ def handle (st : St) (seq : String) (f : List String) : St × List String :=
                (if hb > 0 then [s!"DIFF\t{seq}\t{scen} {blocker}: model=borrow steps atomic (seen wrapped={borrowW}) impl={hb} half-applied {rest}"] else [])
       (st, d ++ monIf seq (reach = "1" && hv + hb > 0) "unit_atomic")
     | _, _ => (st, [s!"BAD\t{seq}\tpost line"])
+  | "hooks.items.single" :: scen :: blocker :: n :: k :: kind :: j :: returned :: natFail :: observed :: decomposes :: rest =>
+    match parseNat? n, parseNat? k, parseBits natFail with
+    | some n, some k, some nat =>
+      -- model (`per_item_loop_processes_ok_items`): every item under its own wrapper ⇒ exactly the items that do not fail
+      -- are processed, whatever the others do; the blocker over all items = the one-item blockers in sequence
+      -- (`blocker_splits_per_item`)
+      let oks := (List.range n).map fun i => !(nat.getD i false) && i + 1 != k
+      let vis := (runUnits (itemUnits oks 1) []).1
+      let predicted := (List.range n).map fun i => vis.contains (i + 1)
+      let obs := if observed = "?" then none else parseBits observed
+      let agree := obs == some predicted
+      let d := (if agree && returned = "ok" then [] else
+          [s!"DIFF\t{seq}\t{scen} {blocker} fault in item {k} ({kind}, access {j}): processed items model={predicted.map b01} impl={observed} returned={returned} {rest}"]) ++
+        (if decomposes = "1" then [] else
+          [s!"DIFF\t{seq}\t{scen} {blocker}: model=the blocker over all items equals the one-item blockers in sequence impl=differs"])
+      let leaked := match obs with
+        | none => true
+        | some o => (List.range n).any fun i => o.getD i false && !(predicted.getD i false)
+      let dropped := match obs with
+        | none => false
+        | some o => (List.range n).any fun i => !(o.getD i true) && predicted.getD i false
+      (st, d ++ monIf seq (returned != "ok") "no_panic" ++ monIf seq (returned = "ok" && leaked) "unit_atomic" ++
+        monIf seq (returned = "ok" && dropped) "remaining_run")
+    | _, _, _ => (st, [s!"BAD\t{seq}\titems line"])
+  | "hooks.kick.single" :: scen :: blocker :: reach :: returned :: pos :: mode :: due :: blockedBy :: lotMoved :: lv :: auc :: active :: _ =>
+    -- model = the code as it is (`surplusKickRaw` inside `runUnwrappedLoop`): an entry behind a failing one is not looked at; a
+    -- due entry loses its lot BEFORE the test whether an English auction can start
+    let s0 : Kick := { collector := 1000, parked := 0, netFees := 1000, lockedVaults := 0, auctions := 0, active := false }
+    let processed := due = "1" && blockedBy = "0"
+    let r := if processed then (surplusKickRaw 1 (mode = "2") s0).1 else s0
+    let model := [b01 (r.netFees != s0.netFees), b01 (r.lockedVaults > 0), b01 (r.auctions > 0)] ++ (if processed then [b01 r.active] else [active])
+    -- the repaired code (every entry under its own wrapper, `kickoff_wrapped_is_atomic`) is accepted as well: a due entry is
+    -- processed whatever the entries before it do, and leaves nothing behind if it fails
+    let r' := if due = "1" then (applyIfNoError (surplusKickRaw 1 (mode = "2")).toExcept s0).1 else s0
+    let repaired := [b01 (r'.netFees != s0.netFees), b01 (r'.lockedVaults > 0), b01 (r'.auctions > 0)] ++ (if due = "1" && mode = "2" then ["1"] else [active])
+    let impl := [lotMoved, lv, auc, active]
+    let d := if (model = impl || repaired = impl) && returned = "ok" then [] else
+      [s!"DIFF\t{seq}\t{scen} {blocker} entry {pos} (mode {mode}, due {due}, blocked by {blockedBy}): lotMoved,lockedVault,auction,active model={model} (repaired: {repaired}) impl={impl} returned={returned}"]
+    (st, d ++ monIf seq (returned != "ok" && reach = "1") "no_panic" ++
+      monIf seq (reach = "1" && lotMoved = "1" && auc = "0") "kickoff_atomic" ++
+      monIf seq (reach = "1" && due = "1" && blockedBy != "0" && mode = "2" && auc = "0") "kickoff_remaining")
   | _ => (st, [s!"BAD\t{seq}\tunknown hooks line"])
 
 end Comdex.Drv.Hooks
